@@ -196,6 +196,22 @@ func installCache() {
 	})
 	verifrt.Override("(*github.com/muesli/cache2go.CacheTable).Flush", func(t *cache2go.CacheTable) { tblItems[t] = nil })
 	verifrt.Override("(*github.com/muesli/cache2go.CacheItem).Data", func(i *cache2go.CacheItem) interface{} { return itemOf[i].data })
+	// the other accessors of an item handle (cacheitem.go): all read the item the handle stands for
+	verifrt.Override("(*github.com/muesli/cache2go.CacheItem).AccessedOn", func(i *cache2go.CacheItem) time.Time { return itemOf[i].accessedOn })
+	verifrt.Override("(*github.com/muesli/cache2go.CacheItem).CreatedOn", func(i *cache2go.CacheItem) time.Time { return itemOf[i].createdOn })
+	verifrt.Override("(*github.com/muesli/cache2go.CacheItem).LifeSpan", func(i *cache2go.CacheItem) time.Duration { return itemOf[i].lifeSpan })
+	verifrt.Override("(*github.com/muesli/cache2go.CacheItem).Key", func(i *cache2go.CacheItem) interface{} { return itemOf[i].key })
+	verifrt.Override("(*github.com/muesli/cache2go.CacheItem).KeepAlive", func(i *cache2go.CacheItem) { itemOf[i].accessedOn = time.Now() })
+	verifrt.Override("(*github.com/muesli/cache2go.CacheTable).Exists", func(t *cache2go.CacheTable, key interface{}) bool {
+		now := time.Now()
+		for _, it := range tblItems[t] {
+			if it.key == key && !(it.lifeSpan != 0 && now.Sub(it.accessedOn) >= it.lifeSpan) {
+				return true
+			}
+		}
+		return false
+	})
+	verifrt.Override("(*github.com/muesli/cache2go.CacheTable).Count", func(t *cache2go.CacheTable) int { return len(tblItems[t]) })
 }
 
 // ---- the modelled network / PKI ----
